@@ -42,6 +42,8 @@ pub enum Cond {
     /// a script-implemented library command in condition position (`array_contains ${a<k>} <value>`: its script uses
     /// for / if / end itself while the caller's block keyword is being evaluated)
     Lib { arr: usize, val: String },
+    /// a condition command that reports an error (`greater_than abc 5`: "Non numeric value"), plain or negated
+    Errs { negate: bool },
 }
 
 #[derive(Serialize, Deserialize, Clone, Debug, PartialEq)]
@@ -137,6 +139,7 @@ pub fn render_cond(c: &Cond) -> String {
             format!("{} {} {}", g(a, *pa), if *or { "or" } else { "and" }, g(b, *pb))
         }
         Cond::Lib { arr, val } => format!("array_contains ${{a{}}} {}", arr, rarg(val)),
+        Cond::Errs { negate } => format!("{}greater_than abc 5", if *negate { "not " } else { "" }),
     }
 }
 
@@ -278,6 +281,8 @@ pub struct Interp<'a> {
     /// variable false, the body goes on) instead of ending the comparison as inconclusive; off while the finding about
     /// exactly that is listed
     pub strict_cond_errors: bool,
+    /// a block header whose own condition reports an error counts as not taken (false: the model gives up there)
+    pub strict_header_errors: bool,
     pub probes: Vec<&'static str>,
     pub loop_depth: u32,
     pub call_depth: u32,
@@ -315,6 +320,7 @@ impl<'a> Interp<'a> {
             steps: 0,
             cond_depth: 0,
             strict_cond_errors: false,
+            strict_header_errors: false,
             probes: vec![],
             loop_depth: 0,
             call_depth: 0,
@@ -467,6 +473,15 @@ impl<'a> Interp<'a> {
                 // the command answers with the index of the first match ("0" is a false value) or false
                 let idx = self.p.arrays.get(*arr).and_then(|a| a.iter().position(|x| x == val));
                 Ok(matches!(idx, Some(i) if i > 0))
+            }
+            Cond::Errs { .. } => {
+                // a condition that reports an error has no truthy value: the statement's reading is "not taken" (the
+                // header answers with the error and the block goes on as for a false condition)
+                if !self.strict_header_errors {
+                    return Err(Stop::Inconclusive("a condition that reports an error".to_string()));
+                }
+                self.probes.push("condition-reports-an-error");
+                Ok(false)
             }
         }
     }
@@ -1071,11 +1086,13 @@ pub struct GenOpts {
     /// arguments of condition-position calls may carry characters that the re-serialisation of such calls mangles
     /// (only while the finding about that is not listed)
     pub odd_cond_args: bool,
+    /// conditions that report an error
+    pub err_conds: bool,
 }
 
 impl Default for GenOpts {
     fn default() -> Self {
-        GenOpts { functions: false, faults: false, looping: false, halt_cmd: false, max_depth: 4, max_stmts: 40, avoid_forin_return: false, avoid_fullname_else: false, lib_calls: false, odd_cond_args: false }
+        GenOpts { functions: false, faults: false, looping: false, halt_cmd: false, max_depth: 4, max_stmts: 40, avoid_forin_return: false, avoid_fullname_else: false, lib_calls: false, odd_cond_args: false, err_conds: false }
     }
 }
 
@@ -1203,6 +1220,9 @@ impl<'r> G<'r> {
     fn cond(&mut self, ctx: &Ctx, for_loop: bool) -> Cond {
         if for_loop {
             return Cond::Cnd { site: self.new_cnd(3), negate: self.rng.chance(1, 4) };
+        }
+        if self.opts.err_conds && self.rng.chance(1, 40) {
+            return Cond::Errs { negate: self.rng.chance(1, 3) };
         }
         match self.rng.below(10) {
             0 | 1 => Cond::Val(self.cond_value(ctx)),
